@@ -48,7 +48,8 @@ def handle (j : Json) : Except String Json := do
   let sigma ← (← getArr j "sigma").toList.mapM parseQN
   let types ← (← getArr j "types").toList.mapM parseTypes
   let fuel ← getNat j "fuel"
-  let M := mkCtx v11 n nodes infos defined
+  let rootFix := match j.getObjValAs? Bool "rootfix" with | .ok b => b | .error _ => false
+  let M := mkCtx v11 n nodes infos defined rootFix
   let r := M.checkModel p
   let mJ := Json.mkObj (errJson' r.err ++ [
     ("precs", Json.arr (r.precs.map fun (w, e) => Json.arr #[w, e]).toArray),
